@@ -343,6 +343,11 @@ def check(ctx):
             ctx.require(R4, any(x.is_(src) for x in sl.calls) and not others, where(mel, i), "Certificate.%s <- %s" % (fld, src.rsplit("::", 1)[1]), ["MainEventLoop::new", "cert-field", fld])
     from .c14 import merge_pairing
     merge_pairing(ctx, R4, only=("renew_delay", "random_early_renew"))
+    from .c14 import precedence_tables
+    precedence_tables(ctx, R4, only=("renew_delay", "random_early_renew"))
+    # ... and are read with the documented period grammar (shared with C19.R5)
+    from .c19 import check_period_grammar
+    check_period_grammar(ctx)
 
 
 def is_zero_duration(body, op):
